@@ -37,11 +37,17 @@ def run(ctx):
     run_queues(ctx, jobs, pb=2 if q else 3, max_exec=400 if q else 20000)
     if not q:
         run_queues(ctx, jobs, pb=5, max_exec=0, mode='random', runs=800, tagx='r')
+    # S: the impl spec KirschKfifo is bound to the code at the grain of single atomic accesses (slot values and tags match exactly)
+    from props.c03 import step_bind
+    keepk = lambda r: r.get('fn', '').startswith('kirsch_kfifo_queue::') and not any(x in r.get('fn', '') for x in ('alloc_segment', 'release_segment', 'segment::'))
+    for cfgk, kk, rc in ([('kf1', 1, 'nebr0')] if q else [('kf1', 1, 'nebr0'), ('kf2', 2, 'nebr0'), ('kf1', 1, 'hp3'), ('kf2', 2, 'stamp')]):
+        step_bind(ctx, 'KirschKfifo', 'queue_kirsch', ['%s/%s/P;;push1,push2,pop;pop,push3' % (cfgk, rc)], queue_models.kf_consts(Progs='<-ProgStep', NSegs=7, K=kk),
+                  pb=2, max_exec=60 if q else 3000, keep=keepk)
     for r in ctx.tv[:3]:
         ctx.samples.append({'driver': r['driver'], 'history': canonical_sample(execution_lines(r['trace'], 2), 60)})
     return finish(ctx,
                   'T: programs of 2-3 threads on kirsch_kfifo_queue (k = 1..3, every reclaimer that accepts a custom deleter) and kirsch_bounded_kfifo_queue '
                   '(k = 1..3 x 1..3 segments); the random start index is a recorded scheduler decision (enumerated by the DFS); all schedules up to preemption '
                   'bound 2/3; TLC checks every distinct history against the k-FIFO of abs/Queues (one of the k oldest; empty only with < k stored and overlap; '
-                  'bounded: reject only with >= (segments-1)*k+1 stored); M: KirschBounded impl spec with small index width (wrap-around / k*segments vs 2^bits)',
+                  'bounded: reject only with >= (segments-1)*k+1 stored); M: TLC model-checks the KirschKfifo impl spec (tagged slots, committed, advance_head / advance_tail, segment reclamation, destructor) with mechanism toggles; S: every atomic access of real executions is matched against that spec (values and tags exactly)',
                   ['sequential consistency at atomic-access granularity', 'elements are non-null pointers (the queues reject nullptr)'])
